@@ -21,6 +21,7 @@ pub enum Step {
     WinOver(&'static str, u8, &'static str), // write on `side` some content whose BLAKE3 beats the given content at path
     NormMtime,                          // give EVERY file of both trees one and the same modification time, long in the past
     Leftover(u8, &'static str, &'static str), // a staging file `<path>.copia-tmp` left by a killed run (partial bytes, recent mtime)
+    SVia(u8),                           // bisync with root A spelled differently: 1 = through a symlink `A-link`, 2 = as `A/../A`
     ReplaceDirByFile(u8, &'static str, &'static str), // remove the directory at path (with everything in it) on one side and write a regular file there
     LowLoser(&'static str, u8),         // divergent edit at path: side A gets content whose BLAKE3 starts with n zero hex digits (the loser), side B content whose BLAKE3 starts with f
 }
@@ -68,6 +69,11 @@ pub fn scenarios() -> Vec<(&'static str, Vec<Step>)> {
         ("archive-without-format-version", vec![W(0, "f", "v1"), W(0, "keep", "k"), S, D(1, "f"), W(1, "keep", "changed"), ArchiveFault(8), S]),
         ("archive-without-epoch", vec![W(0, "f", "v1"), S, D(1, "f"), ArchiveFault(9), S]),
         ("archive-without-host-id", vec![W(0, "f", "v1"), S, D(0, "f"), ArchiveFault(10), S]),
+        ("the-same-pair-under-another-spelling-and-back (symlinked root)", vec![W(0, "f", "v1"), W(0, "g", "g1"), S, W(0, "f", "v2"), SVia(1), W(0, "f", "v1"), S, S]),
+        ("the-same-pair-under-another-spelling-and-back (dot-dot spelling)", vec![W(0, "f", "v1"), S, D(1, "f"), SVia(2), W(0, "f", "v1"), S, S]),
+        ("archive-with-a-blank-pair-id", vec![W(0, "f", "v1"), W(0, "k", "k"), S, D(1, "f"), W(1, "k", "changed"), ArchiveFault(11), S]),
+        ("archive-with-a-clipped-pair-id", vec![W(0, "f", "v1"), S, D(0, "f"), ArchiveFault(12), S]),
+        ("dry-run-with-only-the-backup-archive-left", vec![W(0, "keep", "k1"), S, W(0, "x", "x1"), S, W(1, "x", "x2"), ArchiveFault(5), Dry, Dry]),
         ("archive-only-bak", vec![W(0, "keep", "k1"), S, W(0, "x", "x1"), S, D(1, "keep"), ArchiveFault(5), S]),
         ("equal-size-equal-mtime-edit (C06 mtime independence)", vec![W(0, "f", "aaaa"), W(0, "g", "keep"), S, W(0, "f", "bbbb"), NormMtime, S, S, Dry]),
         ("equal-size-equal-mtime-conflict (C06 mtime independence)", vec![W(0, "f", "base"), S, W(0, "f", "aaa1"), W(1, "f", "bbb2"), NormMtime, S, S]),
@@ -78,13 +84,13 @@ pub fn scenarios() -> Vec<(&'static str, Vec<Step>)> {
     ]
 }
 
-struct Env { dir: PathBuf }
+struct Env { dir: PathBuf, spelling: std::cell::Cell<u8> }
 impl Env {
     fn new(tagx: &str) -> Env {
         let d = std::env::temp_dir().join(format!("copia-verif-bisync-{}-{}", std::process::id(), tagx.replace(|c: char| !c.is_alphanumeric(), "_")));
         let _ = std::fs::remove_dir_all(&d);
         for s in ["A", "B", "home"] { let _ = std::fs::create_dir_all(d.join(s)); }
-        Env { dir: d }
+        Env { dir: d, spelling: std::cell::Cell::new(0) }
     }
     fn side(&self, s: u8) -> PathBuf { self.dir.join(if s == 0 { "A" } else { "B" }) }
     fn run(&self, dry: bool) -> (Option<i32>, String) {
@@ -92,7 +98,8 @@ impl Env {
         let mut c = Command::new(b);
         c.arg("bisync");
         if dry { c.arg("--dry-run"); }
-        c.arg(self.side(0)).arg(self.side(1)).env("HOME", self.dir.join("home")).env("HOSTNAME", "vh").env("RUST_BACKTRACE", "0");
+        let a = match self.spelling.get() { 1 => { let l = self.dir.join("A-link"); if std::fs::symlink_metadata(&l).is_err() { let _ = std::os::unix::fs::symlink(self.side(0), &l); } l } 2 => self.side(0).join("..").join("A"), _ => self.side(0) };
+        c.arg(a).arg(self.side(1)).env("HOME", self.dir.join("home")).env("HOSTNAME", "vh").env("RUST_BACKTRACE", "0");
         match c.output() { Ok(o) => (o.status.code(), format!("{}{}", String::from_utf8_lossy(&o.stdout), String::from_utf8_lossy(&o.stderr))), Err(e) => (Some(-1), e.to_string()) }
     }
     fn tree(&self, s: u8) -> Tree {
@@ -133,7 +140,12 @@ pub fn run_history_all(name: &str, steps: &[Step]) -> Vec<String> {
     let mut faulted = false;               // an archive fault was injected since the last completed run
     for (si, st) in steps.iter().enumerate() {
         match st {
-            W(s, p, c) => { let f = env.side(*s).join(p); if let Some(d) = f.parent() { let _ = std::fs::create_dir_all(d); } let _ = std::fs::write(f, c); }
+            W(s, p, c) => {
+                let other = env.tree(1 - *s);
+                let f = env.side(*s).join(p); if let Some(d) = f.parent() { let _ = std::fs::create_dir_all(d); } let _ = std::fs::write(f, c);
+                let other2 = env.tree(1 - *s);
+                if other2 != other { let q: Vec<&String> = other.keys().filter(|k| other.get(*k) != other2.get(*k)).collect(); bad!(format!("[{name}] step {si}: writing `{p}` in place on side {} changed {q:?} on the OTHER side: the two replicas share storage (a delivered file is the same inode on both sides), so the other side's version is gone without any run (C02)", if *s == 0 { "A" } else { "B" })); }
+            }
             D(s, p) => { let _ = std::fs::remove_file(env.side(*s).join(p)); }
             EditConflictCopy(s, c) => { for (p, _) in env.tree(*s) { if p.contains(".conflict-") { let _ = std::fs::write(env.side(*s).join(&p), c); } } }
             DelConflictCopiesOn(s) => { for (p, _) in env.tree(*s) { if p.contains(".conflict-") { let _ = std::fs::remove_file(env.side(*s).join(&p)); } } }
@@ -171,6 +183,7 @@ pub fn run_history_all(name: &str, steps: &[Step]) -> Vec<String> {
                         4 => { let _ = std::fs::write(&a, String::from_utf8_lossy(&bytes).replace("\"format_version\": 1", "\"format_version\": 2")); }
                         6 => { let _ = std::fs::write(&a, String::from_utf8_lossy(&bytes).replace("\"format_version\": 1", "\"format_version\": 0")); }
                         7 => { let _ = std::fs::write(&a, String::from_utf8_lossy(&bytes).replace("\"format_version\": 1", "\"format_version\": 4294967295")); }
+                        11 | 12 => { let t = String::from_utf8_lossy(&bytes).into_owned(); if let Some(i) = t.find("\"root_pair_hash\": \"") { let st = i + "\"root_pair_hash\": \"".len(); if let Some(e) = t[st..].find('"') { let keep = if *k == 11 { 0 } else { 8.min(e) }; let nt = format!("{}{}{}", &t[..st], &t[st..st + keep], &t[st + e..]); let _ = std::fs::write(&a, nt); } } }
                         8 | 9 | 10 => { let key = ["\"format_version\"", "\"epoch\"", "\"host_id\""][(*k - 8) as usize]; let t: String = String::from_utf8_lossy(&bytes).lines().filter(|l| !l.trim_start().starts_with(key)).collect::<Vec<_>>().join("\n"); let _ = std::fs::write(&a, t); }
                         _ => { let _ = std::fs::remove_file(&a); } // only .bak (and maybe .tmp) left behind
                     }
@@ -183,7 +196,8 @@ pub fn run_history_all(name: &str, steps: &[Step]) -> Vec<String> {
                 if env.home_snapshot() != th { bad!(format!("[{name}] step {si}: bisync --dry-run changed the recorded state under $HOME (archive rewritten) (C15)")); }
                 let _ = out;
             }
-            S => {
+            S | SVia(_) => {
+                env.spelling.set(if let SVia(k) = st { *k } else { 0 });
                 let (ta, tb) = (env.tree(0), env.tree(1));
                 // idempotence (C06), observed without reading the program's messages: a copy publishes by rename, so a file the
                 // run delivered has a new inode
